@@ -68,5 +68,13 @@ CLAIMS['C14'] = dict(
     note='the history-independence lemma is argued from these obligations, not mechanised; numpy/LAPACK determinism assumed; '
          'native sweep (sweep vs fresh, orders, two processes) is a bounded stand-in',
     design_ref='DESIGN.md §5 C14')
+CLAIMS['C11'] = dict(
+    text='Clause claimed: "ground constants influence only the far field". Proof by a reads clause over the call-graph closure of '
+         'everything that determines currents and impedances (no attribute of a medium is read, no Medium method is reachable, '
+         '`media` is used only as None-test / truthiness / len) plus the verified contract of Geobj.compute_ground (grounding '
+         'depends on `media is None` and the 1e-3 tolerance only). The limit and split/far-medium clauses are NOT decided '
+         'deductively (vectorised Fresnel code); they are only exercised by the bounded native sweep.',
+    note='clause-only claim; call graph by method name and arity (over-approximation); floats as reals',
+    design_ref='DESIGN.md §5 C11')
 for _p in CLAIMS:
     NOT_APPLICABLE.pop(_p, None)
